@@ -218,7 +218,8 @@ pub fn apply(m: &Mutation, plan: &Plan, built: &Built) -> Option<Case> {
             case.req.uri = format!("{}{}", p.replacen("%20", "+", 1), q);
         }
         AppendParam(x) => {
-            let extra = ["zz=1", "a=", "=", "a", "X-Amz-Expires=1", "a-=&a="][pick_idx(*x, 6)];
+            const EXTRA: &[&str] = &["zz=1", "a=", "=", "a", "X-Amz-Expires=1", "a-=&a=", "x-amz-signature=1", "X-AMZ-SIGNATURE=ab", "X-Amz-SignatureX=1", "X-Amz-Signatur=1", "%58-Amz-Signature=1"];
+            let extra = EXTRA[pick_idx(*x, EXTRA.len())];
             case.req.uri = if case.req.uri.contains('?') { format!("{}&{}", case.req.uri, extra) } else { format!("{}?{}", case.req.uri, extra) };
         }
         DuplicateParam(x) | RemoveParam(x) => {
